@@ -32,7 +32,14 @@ class SourceFile:
         return self._source.asttokens()
 
     def _token_to_code(self, tokens):
-        return self._format(tokenize.untokenize(tokens)).strip()
+        code = tokenize.untokenize(tokens)
+        if len(tokens) == 1 and tokens[0].type == tokenize.STRING:
+            # a lone string literal would be formatted like a module docstring
+            # (stripped and re-indented), which changes its value
+            formatted = self._format(f"({code})").strip()
+            if formatted.startswith("(") and formatted.endswith(")"):
+                return formatted[1:-1].strip()
+        return self._format(code).strip()
 
     def _value_to_code(self, value):
         return self._token_to_code(value_to_token(value))
